@@ -238,6 +238,7 @@ func TBE(reftree *tree.Tree, boottrees <-chan tree.Trees, cpu int,
 			for c := 0; c < cpu; c++ {
 				go func() {
 					for e := range edgechan {
+						tree.VerifYield()
 						if p, _ := e.TopoDepth(); p > 1 {
 							if _, ok := bootedgeindex.Value(e); ok {
 								if p >= mindepth {
